@@ -48,6 +48,7 @@ type gfunc struct {
 	params []gvar
 	res    gty
 	src    string
+	tuples [][]argval // data programs: the argument tuples to call the function with (nil: drawn at random)
 }
 
 // Features switch on constructs that exercise specific (possibly defective) compiler paths.
@@ -79,9 +80,11 @@ type gen struct {
 	pend     int // >0 while an object-stack operand of an enclosing operation is pending
 	sb       strings.Builder
 	counts   map[string]int
+	data     *dgen // generator of data programs (data.go); units of histories are data programs now and then
 }
 
-var strPool = []string{"", "a", "ab", "abc", "b", "foo", "bar", "foobar", "42", "-7", "x y", "0", "9223372036854775807", "aXb", "é"}
+var strPool = []string{"", "a", "ab", "abc", "b", "foo", "bar", "foobar", "42", "-7", "x y", "0", "9223372036854775807", "aXb", "é",
+	"100%", "%d", "a\x00b", "\xff", "abab", "+5", " 42"}
 var intPool = []int64{0, 1, 2, 3, -1, 5, 7, 10, 11, 42, 100, -100, 255, 256, 1000, 1 << 40, -(1 << 40), 9223372036854775807, -9223372036854775808, 9223372036854775806}
 
 func (g *gen) note(k string) { g.counts[k]++ }
@@ -838,6 +841,10 @@ func (g *gen) function(idx int, res gty) *gfunc {
 // program generates one program of 1..4 functions.
 func (g *gen) program() []*gfunc {
 	g.funcs = nil
+	if g.data != nil && g.r.Intn(7) == 0 {
+		g.data.counts = g.counts
+		return g.data.program()
+	}
 	n := 1 + g.r.Intn(4)
 	for i := 0; i < n; i++ {
 		res := gty(g.r.Intn(3))
